@@ -133,11 +133,12 @@ def spec(name: str, opts: dict):
             def ref(A, S, aux):
                 out = np.stack([one(A["vector_field"][q], A["velocity"], S["dt_by_dx"]) for q in range(3)])
                 last = out[2] - A["vector_field"][2]
-                return {"vector_field": (out, _vec(interior(out.shape[1:], 2), 3)), "advection_flux": (last, full(last.shape))}
+                # the time-step kernels add the flux (zero outside the stencil region) to the WHOLE field
+                return {"vector_field": (out, np.ones(out.shape, bool)), "advection_flux": (last, full(last.shape))}
             return dict(arrays=[("vector_field", "v", "inout"), ("advection_flux", "s", "out"), ("velocity", "v", "in")], scalars={"dt_by_dx": 0.375}, ref=ref)
         def ref(A, S, aux):
             out = one(A["field"], A["velocity"], S["dt_by_dx"])
-            return {"field": (out, interior(out.shape, 2)), "advection_flux": (out - A["field"], full(out.shape))}
+            return {"field": (out, full(out.shape)), "advection_flux": (out - A["field"], full(out.shape))}
         return dict(arrays=[("field", "s", "inout"), ("advection_flux", "s", "out"), ("velocity", "v", "in")], scalars={"dt_by_dx": 0.375}, ref=ref)
     if base == "diffusion_flux":
         if vec:
@@ -156,11 +157,11 @@ def spec(name: str, opts: dict):
             def ref(A, S, aux):
                 out = np.stack([c + S["nu_dt_by_dx2"] * fsr.laplacian(c) for c in A["vector_field"]])
                 last = out[2] - A["vector_field"][2]
-                return {"vector_field": (out, _vec(interior(out.shape[1:]), 3)), "diffusion_flux": (last, full(last.shape))}
+                return {"vector_field": (out, np.ones(out.shape, bool)), "diffusion_flux": (last, full(last.shape))}
             return dict(arrays=[("vector_field", "v", "inout"), ("diffusion_flux", "s", "out")], scalars={"nu_dt_by_dx2": 0.125}, ref=ref)
         def ref(A, S, aux):
             out = A["field"] + S["nu_dt_by_dx2"] * fsr.laplacian(A["field"])
-            return {"field": (out, interior(out.shape)), "diffusion_flux": (out - A["field"], full(out.shape))}
+            return {"field": (out, full(out.shape)), "diffusion_flux": (out - A["field"], full(out.shape))}
         return dict(arrays=[("field", "s", "inout"), ("diffusion_flux", "s", "out")], scalars={"nu_dt_by_dx2": 0.125}, ref=ref)
     if base == "inplane_field_curl":
         def ref(A, S, aux):
